@@ -34,6 +34,19 @@ def validate_id(obj_id):
     return ""
 
 
+def get_d_tag(tags):
+    """
+    Return the value of the first "d" tag (nip-33).
+    A missing tag, [["d"]] and [["d", ""]] all mean the empty string
+    """
+    for tag in tags:
+        if tag and tag[0] == "d":
+            if len(tag) > 1 and isinstance(tag[1], str):
+                return tag[1]
+            break
+    return ""
+
+
 def event_from_tuple(row):
     tags = row[4]
     if isinstance(tags, str):
@@ -237,45 +250,21 @@ class DBStorage(BaseStorage):
             )
             result = await conn.execute(query)
 
-            delete_id = None
+            delete_ids = []
             if event.is_paramaterized_replaceable:
                 # according to nip-33, an event with a matching "d" tag will be replaced
                 # empty tags include [], [["d"]], and [["d", ""]]
-                d_tag = ""
-                for tag in event.tags:
-                    if tag[0] == "d":
-                        if len(tag) > 1:
-                            d_tag = tag[1]
-                        break
+                d_tag = get_d_tag(event.tags)
                 for old_id, created_at, tags in result:
-                    found_tag = [tag for tag in tags if tag[0] == "d"]
-                    if not d_tag:
-                        if (
-                            not found_tag
-                            or len(found_tag[0]) == 1
-                            or found_tag[0][1] == ""
-                        ):
-                            delete_id = old_id
-                            old_ts = created_at
-                            break
-                    else:
-                        tag = found_tag[0]
-                        if len(tag) > 1 and tag[1] == d_tag:
-                            delete_id = old_id
-                            old_ts = created_at
-                            break
-
+                    if get_d_tag(tags) == d_tag:
+                        delete_ids.append(old_id)
             else:
-                row = result.first()
-                if row:
-                    delete_id = row[0]
-                    old_ts = row[1]
-            if delete_id:
+                delete_ids = [row[0] for row in result]
+            for delete_id in delete_ids:
                 self.log.info(
-                    "Replacing event %s from %s@%s with %s",
-                    delete_id,
+                    "Replacing event %s from %s with %s",
+                    delete_id.hex(),
                     event.pubkey,
-                    old_ts,
                     event.id,
                 )
                 await conn.execute(
